@@ -1,5 +1,10 @@
 import PortusModel.Props.C09
+import PortusModel.Props.C09History
 #print axioms Portus.C09.other_datapaths_untouched
 #print axioms Portus.C09.commands_go_home
 #print axioms Portus.C02.ready_drops_only_that_address
 #print axioms Portus.Rt.step_ok
+#print axioms Portus.C02.history_refines_flat_map
+#print axioms Portus.C09.spec_other_addresses_untouched
+#print axioms Portus.C09.spec_callbacks_own_flows
+#print axioms Portus.C09.spec_ready_discards_only_own
